@@ -1,10 +1,18 @@
 package core
 
 import (
+	"github.com/jsightapi/jsight-api-core/directive"
 	"github.com/jsightapi/jsight-api-core/jerr"
 )
 
 func (core *JApiCore) compileCore() *jerr.JApiError {
+	// JSIGHT has to be the first directive of the document as it is written. The
+	// MACRO definitions are taken out of the list below: they must not hide a
+	// missing or misplaced JSIGHT from the check made when the catalog is built.
+	if len(core.directives) != 0 && core.directives[0].Type() != directive.Jsight {
+		return core.directives[0].KeywordError(jerr.DirectiveJSIGHTShouldBeTheFirst)
+	}
+
 	if je := core.collectMacro(); je != nil {
 		return je
 	}
